@@ -46,6 +46,7 @@ type c16Plan struct {
 	Rules     []schemaRule `json:"schemas,omitempty"`
 	OrgID     int          `json:"orgId,omitempty"`
 	IOBuf     int          `json:"iobuf,omitempty"`
+	Kafka     *c16Kafka    `json:"kafka,omitempty"`
 }
 
 var c16Vals = []string{"1", "0", "-1.5", "1e3", "+5", ".5", "0x1p-2", "NaN", "Inf", "-Inf", "1e400", "123456789.125", "1.", "5e-324", "1_0", "x", "0x10"}
@@ -102,7 +103,7 @@ func refSchemaInterval(rules []schemaRule, series string) int {
 func scenC16(x *Exec) {
 	g := x.Gen
 	cfg := SwarmConfig(g)
-	p := c16Plan{Mode: []string{"pickle", "grafananet"}[g.Pick(2)]}
+	p := c16Plan{Mode: []string{"pickle", "grafananet", "kafka"}[g.Pick(3)]}
 	p.N = 10 + g.Intn(80)
 	var lines []string
 	for i := 0; i < p.N; i++ {
@@ -313,6 +314,9 @@ func scenC16(x *Exec) {
 	} else {
 		p.Rules = append(p.Rules, def)
 	}
+	if p.Mode == "kafka" {
+		p.Kafka = genC16Kafka(g)
+	}
 	x.Out.Sample = p
 	var sb strings.Builder
 	for _, r := range p.Rules {
@@ -325,6 +329,10 @@ func scenC16(x *Exec) {
 	sf, af, err := gnConfFiles(sb.String())
 	if err != nil {
 		x.Out.Infra = err.Error()
+		return
+	}
+	if p.Mode == "kafka" {
+		runC16Kafka(x, cfg, &p, lines, sf, sb.String())
 		return
 	}
 	s := x.Bubble(cfg, func(s *simrt.Sim) {
